@@ -22,6 +22,16 @@ func init() {
 // libFuncs: module functions of the three library packages, generic
 // functions once (their origin), closures included.
 func libFuncs(c *core.Ctx) []*ssa.Function {
+	// generic code is analysed once: through its origin when go/ssa built a
+	// body for it (generic functions), else through one representative
+	// instantiation (methods of generic types are only built as instances)
+	haveOrigin := map[*ssa.Function]bool{}
+	for _, fn := range c.P.ModFuncs {
+		if fn.Parent() == nil && fn.Origin() == nil {
+			haveOrigin[fn] = true
+		}
+	}
+	rep := map[*ssa.Function]*ssa.Function{} // origin → chosen instance root
 	var out []*ssa.Function
 	for _, fn := range c.P.ModFuncs {
 		if strings.HasSuffix(c.P.PkgOf(fn), "/cmd/mocrelay") {
@@ -31,8 +41,15 @@ func libFuncs(c *core.Ctx) []*ssa.Function {
 		for root.Parent() != nil {
 			root = root.Parent()
 		}
-		if root.Origin() != nil {
-			continue // an instantiation: the generic origin is analysed
+		if o := root.Origin(); o != nil {
+			if haveOrigin[o] {
+				continue // an instantiation: the generic origin is analysed
+			}
+			if r, ok := rep[o]; !ok {
+				rep[o] = root
+			} else if r != root {
+				continue
+			}
 		}
 		out = append(out, fn)
 	}
